@@ -23,6 +23,8 @@ func (w *World) registerMoreIntrinsics() {
 	w.registerReflectIntrinsics()
 	w.registerCipherIntrinsics()
 	w.registerPackIntrinsics()
+	w.registerRaceIntrinsics()
+	w.registerFileIntrinsics()
 	terms := func(e *Exec, v Value) []*Term {
 		var ts []*Term
 		for _, x := range e.sliceElems(v.(*SliceVal)) {
